@@ -169,6 +169,11 @@ def check_wellposed(case, ctx: Ctx) -> None:
     built = lt.build(case)
     facts = facts_of(case)
     try:
+        if case.get("jitter_after_assembly"):
+            if case.get("write_before_move"):
+                lt.write_text(built.mesh)
+            lt.move_after_assembly(case, built)
+            ctx.label("moved-after-assembly")
         text, _ = lt.write_text(built.mesh)
     except (UndefinedGradingsError, InconsistentGradingsError) as ex:
         raise Violation("wellposed-rejected", f"{type(ex).__name__}: {ex}", **facts) from None
@@ -187,6 +192,9 @@ def check_wellposed(case, ctx: Ctx) -> None:
 @st.composite
 def graded_case(draw, multi: bool):
     case = draw(lt.chopped_lattice("wellposed", graded=True, jitter="yes", min_cells=2))
+    # one case in four: the blocks are built regular and the vertices are moved after assembly (optimiser-style)
+    case["jitter_after_assembly"] = draw(st.integers(0, 3)) == 0
+    case["write_before_move"] = draw(st.booleans())
     if multi:
         # replace some chops by 2-3 section graded chops
         for ch in case["chops"]:
